@@ -1,6 +1,439 @@
-//! Property C05: correspondence and oracle (stub: nothing built yet).
-use crate::report::Report;
+//! Property C05: a bundle behaves like the program with its modules required normally.
+//!  (1) CORRESPONDENCE: the Lean model `C05.inlineAll` on the module graph (as an S-expression) vs
+//!      the real bundler through `darklua_core::process` on memory resources: same error list
+//!      (kinds, named files, order) or — on success — the re-parsed real output is exactly
+//!      `C05.assemble` (the Lean accessor template) applied to the module bodies with the call
+//!      sites rewritten as the model decided (definition count, order, names, every rewrite).
+//!  (2) ORACLE (independent of the model): the REAL bundled text is parsed and executed on the
+//!      reference semantics and compared with a reference program the harness builds from the
+//!      module sources with a textbook `require` (package.loaded-style cache, own resolver).
+//!      Cyclic / missing / malformed graphs must yield an error naming the files, under a watchdog.
+use crate::astsexp::{self, Sexp};
+use crate::exec;
+use crate::model::{hex, unhex, Model};
+use crate::progen::{self, Features};
+use crate::progen_c05::{self as g, Case, FileKind, GenOptions, Item, Mode, Rendered, SiteInfo};
+use crate::report::{Report, Violation};
+use crate::rng::Rng;
+use serde_json::{json, Value};
+use std::collections::{BTreeMap, BTreeSet};
 
-pub fn run(report: &mut Report, _replay: Option<&str>) {
-    report.notes.push("C05: no harness yet".to_owned());
+pub const DEFAULT_RULES: [&str; 13] = crate::props::c01::DEFAULT_RULES;
+const LEVEL: u32 = 300;
+
+// ------------------------------------------------------------------ running the real bundler
+
+#[derive(Clone, Debug, PartialEq)]
+pub enum Real {
+    Ok(String),
+    Errors(String),
+    Panic(String),
+    Timeout,
 }
+
+fn config_text(r: &Rendered, generator: &str, rules: &[&str]) -> String {
+    let rule_list: Vec<String> = rules.iter().map(|x| format!("'{}'", x)).collect();
+    let excludes: Vec<String> = r.excludes.iter().map(|x| format!("'{}'", x)).collect();
+    let ident = match &r.modules_identifier {
+        Some(m) => format!(", modules_identifier: '{}'", m),
+        None => String::new(),
+    };
+    format!(
+        "{{ generator: '{}', rules: [{}], bundle: {{ require_mode: '{}', excludes: [{}]{} }} }}",
+        generator,
+        rule_list.join(", "),
+        r.mode,
+        excludes.join(", "),
+        ident
+    )
+}
+
+fn process_files(files: Vec<(String, String)>, entry: String, config: String) -> Real {
+    let (tx, rx) = std::sync::mpsc::channel();
+    std::thread::spawn(move || {
+        let result = std::panic::catch_unwind(std::panic::AssertUnwindSafe(|| {
+            let resources = darklua_core::Resources::from_memory();
+            for (path, content) in &files {
+                resources.write(path, content).unwrap();
+            }
+            let configuration: darklua_core::Configuration = match json5::from_str(&config) {
+                Ok(c) => c,
+                Err(e) => return Real::Panic(format!("harness: bad configuration {}: {}", config, e)),
+            };
+            let options = darklua_core::Options::new(&entry).with_output("out/bundle.lua").with_configuration(configuration);
+            match darklua_core::process(&resources, options) {
+                Err(e) => Real::Errors(e.to_string()),
+                Ok(tree) => match tree.result() {
+                    Ok(()) => match resources.get("out/bundle.lua") {
+                        Ok(text) => Real::Ok(text),
+                        Err(_) => Real::Errors("no output written".to_owned()),
+                    },
+                    Err(errors) => Real::Errors(errors.iter().map(|e| e.to_string()).collect::<Vec<_>>().join("\n")),
+                },
+            }
+        }));
+        let _ = tx.send(match result {
+            Ok(r) => r,
+            Err(p) => Real::Panic(
+                p.downcast_ref::<String>().cloned().or_else(|| p.downcast_ref::<&str>().map(|s| (*s).to_owned())).unwrap_or_default(),
+            ),
+        });
+    });
+    match rx.recv_timeout(std::time::Duration::from_secs(20)) {
+        Ok(r) => r,
+        Err(_) => Real::Timeout,
+    }
+}
+
+pub fn run_real(r: &Rendered, generator: &str, rules: &[&str]) -> Real {
+    process_files(r.files.clone(), r.entry.clone(), config_text(r, generator, rules))
+}
+
+/// the same rules on a single file without bundling (to tell rule defects from bundling defects)
+fn process_plain(code: &str, generator: &str, rules: &[&str]) -> Real {
+    let rule_list: Vec<String> = rules.iter().map(|x| format!("'{}'", x)).collect();
+    let config = format!("{{ generator: '{}', rules: [{}] }}", generator, rule_list.join(", "));
+    process_files(vec![("src/main.lua".to_owned(), code.to_owned())], "src/main.lua".to_owned(), config)
+}
+
+/// (kind, named files) in message order
+pub fn parse_real_errors(message: &str) -> Vec<(String, Vec<String>)> {
+    let mut found: Vec<(usize, String, Vec<String>)> = Vec::new();
+    let tick = |from: usize| -> Option<(String, usize)> {
+        let rest = &message[from..];
+        rest.find('`').map(|end| (rest[..end].to_owned(), from + end))
+    };
+    let mut scan = |needle: &str, f: &mut dyn FnMut(usize, usize) -> Option<(String, Vec<String>)>| {
+        let mut at = 0;
+        while let Some(i) = message[at..].find(needle) {
+            let start = at + i;
+            if let Some((kind, paths)) = f(start, start + needle.len()) {
+                found.push((start, kind, paths));
+            }
+            at = start + needle.len();
+        }
+    };
+    scan("cyclic require detected with `", &mut |_, after| {
+        let line_end = message[after..].find('\n').map(|e| after + e).unwrap_or(message.len());
+        let body = message[after..line_end].trim_end_matches('`');
+        Some(("cyclic".to_owned(), body.split("` > `").map(|s| s.to_owned()).collect()))
+    });
+    scan("unable to find `", &mut |_, after| tick(after).map(|(p, _)| ("notfound".to_owned(), vec![p])));
+    scan("unable to parse `", &mut |_, after| tick(after).map(|(p, _)| ("parse".to_owned(), vec![p])));
+    scan("invalid Lua module at `", &mut |_, after| {
+        tick(after).map(|(p, end)| {
+            let rest = &message[end..];
+            if rest.starts_with("`: module must return exactly one value") {
+                ("manyreturn".to_owned(), vec![p])
+            } else if rest.starts_with("`: module must end with a return statement") {
+                ("noreturn".to_owned(), vec![p])
+            } else {
+                ("invalid-module".to_owned(), vec![p])
+            }
+        })
+    });
+    scan("unable to require resource with extension `", &mut |_, after| {
+        tick(after).and_then(|(_, end)| {
+            let rest = &message[end..];
+            rest.strip_prefix("` at `").and_then(|r| r.find('`').map(|e| ("badext".to_owned(), vec![r[..e].to_owned()])))
+        })
+    });
+    for label in ["json", "yaml", "toml"] {
+        scan(&format!("unable to read {} data", label), &mut |_, _| Some(("parse".to_owned(), vec![])));
+    }
+    scan("unable to require resource at `", &mut |_, after| tick(after).map(|(p, _)| ("missing".to_owned(), vec![p])));
+    found.sort_by_key(|x| x.0);
+    found.into_iter().map(|(_, k, p)| (k, p)).collect()
+}
+
+// ------------------------------------------------------------------ the Lean model
+
+fn site_sexp(s: &SiteInfo, honour_shadow: bool) -> String {
+    let _ = honour_shadow;
+    let target = if s.target == "excluded" {
+        "excluded".to_owned()
+    } else if let Some(q) = s.target.strip_prefix("notfound:") {
+        format!("(notfound {})", hex(q.as_bytes()))
+    } else {
+        format!("(file {})", hex(s.target[5..].as_bytes()))
+    };
+    format!("({} {})", s.shadowed, target)
+}
+
+pub fn graph_request(r: &Rendered) -> (String, String) {
+    let mut entries = Vec::new();
+    for (i, (path, _)) in r.files.iter().enumerate() {
+        let module = match r.shapes[i].as_str() {
+            "data" => "data".to_owned(),
+            "parse-error" => "parse-error".to_owned(),
+            "bad-ext" => "bad-ext".to_owned(),
+            shape => {
+                let ret = match shape { "lua:one" => "one", "lua:none" => "none", _ => "many" };
+                format!("(lua ({}) {})", r.sites[i].iter().map(|s| site_sexp(s, false)).collect::<Vec<_>>().join(" "), ret)
+            }
+        };
+        entries.push(format!("({} {})", hex(path.as_bytes()), module));
+    }
+    let entry_index = r.files.iter().position(|(p, _)| *p == r.entry).unwrap_or(0);
+    let sites = format!("({})", r.sites[entry_index].iter().map(|s| site_sexp(s, true)).collect::<Vec<_>>().join(" "));
+    (format!("({})", entries.join(" ")), sites)
+}
+
+#[derive(Clone, Debug, Default, PartialEq)]
+pub struct ModelBundle {
+    pub defs: Vec<(String, String, Vec<Option<String>>)>,
+    pub entry: Vec<Option<String>>,
+    pub errors: Vec<(String, Vec<String>)>,
+}
+
+fn name_of(s: &Sexp) -> Option<String> {
+    s.atom().and_then(unhex).and_then(|b| String::from_utf8(b).ok())
+}
+
+fn decisions(items: &[Sexp]) -> Vec<Option<String>> {
+    items.iter().map(|d| if d.atom() == Some("-") { None } else { name_of(d) }).collect()
+}
+
+pub fn model_inline(model: &mut Model, r: &Rendered) -> Result<ModelBundle, String> {
+    let (graph, sites) = graph_request(r);
+    let answer = model.ask(&format!("c05.inline {} {}", graph, sites));
+    let tree = Sexp::parse(&answer).map_err(|e| format!("{}: {}", e, answer))?;
+    let items = tree.list().ok_or_else(|| answer.clone())?;
+    if items.len() != 4 || items[0].atom() != Some("bundle") {
+        return Err(answer);
+    }
+    let mut out = ModelBundle::default();
+    for d in &items[1].list().ok_or("defs")?[1..] {
+        let parts = d.list().ok_or("def")?;
+        out.defs.push((
+            name_of(&parts[0]).ok_or("def path")?,
+            name_of(&parts[1]).ok_or("def name")?,
+            decisions(parts[2].list().ok_or("def decisions")?),
+        ));
+    }
+    out.entry = decisions(&items[2].list().ok_or("entry")?[1..]);
+    for e in &items[3].list().ok_or("errors")?[1..] {
+        match e {
+            Sexp::Atom(a) => out.errors.push((a.clone(), vec![])),
+            Sexp::List(parts) => out.errors.push((
+                parts[0].atom().unwrap_or("?").to_owned(),
+                parts[1..].iter().map(|p| name_of(p).unwrap_or_default()).collect(),
+            )),
+        }
+    }
+    Ok(out)
+}
+
+const REQUIRE_HEAD: &str = "(call (var x72657175697265) - ";
+
+/// rewrite the k-th matched require call of a block S-expression as the k-th decision says
+fn substitute(block_sexp: &str, m_ident: &str, decisions: &[Option<String>]) -> Result<String, String> {
+    let mut out = String::with_capacity(block_sexp.len());
+    let mut at = 0;
+    let mut k = 0;
+    while let Some(i) = block_sexp[at..].find(REQUIRE_HEAD) {
+        let start = at + i;
+        let after = start + REQUIRE_HEAD.len();
+        let rest = &block_sexp[after..];
+        // t|s, then exactly one string literal argument
+        let matched = (rest.starts_with("t (str x") || rest.starts_with("s (str x"))
+            && rest[8..].find(')').map(|e| rest[8 + e..].starts_with("))") && rest[8..8 + e].bytes().all(|b| b.is_ascii_hexdigit())).unwrap_or(false);
+        if !matched {
+            out.push_str(&block_sexp[at..after]);
+            at = after;
+            continue;
+        }
+        let end = after + 8 + rest[8..].find(')').unwrap() + 2;
+        out.push_str(&block_sexp[at..start]);
+        match decisions.get(k) {
+            None => return Err(format!("more require calls in the source than sites ({})", decisions.len())),
+            Some(None) => out.push_str(&block_sexp[start..end]),
+            Some(Some(name)) => out.push_str(&format!("(call (field (var {}) {}) - t)", hex(m_ident.as_bytes()), hex(name.as_bytes()))),
+        }
+        k += 1;
+        at = end;
+    }
+    out.push_str(&block_sexp[at..]);
+    if k != decisions.len() {
+        return Err(format!("{} require calls in the source, {} sites", k, decisions.len()));
+    }
+    Ok(out)
+}
+
+fn file_text<'a>(r: &'a Rendered, path: &str) -> Option<&'a str> {
+    r.files.iter().find(|(p, _)| p == path).map(|(_, c)| c.as_str())
+}
+
+/// the bundled block the model predicts: Lean `assemble` over the rewritten sources
+pub fn expected_bundle(model: &mut Model, r: &Rendered, mb: &ModelBundle) -> Result<String, String> {
+    let m_ident = r.modules_identifier.clone().unwrap_or_else(|| "__DARKLUA_BUNDLE_MODULES".to_owned());
+    let mut mods = Vec::new();
+    for (path, name, decs) in &mb.defs {
+        let source = match r.data_lua.get(path) {
+            Some(lua) => lua.clone(),
+            None => file_text(r, path).ok_or("missing file")?.to_owned(),
+        };
+        let block = exec::parse(&source).map_err(|e| format!("harness cannot parse {}: {}", path, e))?;
+        let body = substitute(&astsexp::block_to_sexp(&block), &m_ident, decs)?;
+        mods.push(format!("({} {})", hex(name.as_bytes()), body));
+    }
+    let entry_block = exec::parse(file_text(r, &r.entry).ok_or("missing entry")?).map_err(|e| format!("entry: {}", e))?;
+    let entry = substitute(&astsexp::block_to_sexp(&entry_block), &m_ident, &mb.entry)?;
+    Ok(model.ask(&format!("c05.assemble {} ({}) {}", hex(m_ident.as_bytes()), mods.join(" "), entry)))
+}
+
+// ------------------------------------------------------------------ the property's own view of a graph
+
+#[derive(Clone, Debug, Default)]
+pub struct Expectation {
+    /// files (or looked-for paths) that are defective and reachable: an error must name them
+    pub must_name: Vec<String>,
+    pub cyclic: bool,
+    /// nodes on some reachable cycle
+    pub on_cycle: BTreeSet<String>,
+    /// reachable malformed data files (listed finding: the error does not name them)
+    pub unnamed_data: Vec<String>,
+    /// a required module shadows `require` at a call site (listed finding F8)
+    pub module_shadow: bool,
+    pub reachable: BTreeSet<String>,
+}
+
+impl Expectation {
+    pub fn clean(&self) -> bool {
+        self.must_name.is_empty() && !self.cyclic && self.unnamed_data.is_empty()
+    }
+}
+
+pub fn expectation(r: &Rendered) -> Expectation {
+    let index: BTreeMap<&str, usize> = r.files.iter().enumerate().map(|(i, (p, _))| (p.as_str(), i)).collect();
+    let entry = index[r.entry.as_str()];
+    let mut exp = Expectation::default();
+    // edges the textbook semantics follows
+    let edges = |i: usize, is_entry: bool| -> Vec<&SiteInfo> {
+        let _ = is_entry;
+        if r.shapes[i].starts_with("lua:") { r.sites[i].iter().filter(|s| !s.shadowed).collect() } else { Vec::new() }
+    };
+    let mut color: BTreeMap<usize, u8> = BTreeMap::new();
+    // iterative DFS with an explicit stack of (node, next edge)
+    let mut stack: Vec<(usize, usize, bool)> = vec![(entry, 0, true)];
+    let mut path: Vec<usize> = Vec::new();
+    // the entry itself is only "on the stack" when required as a module
+    while let Some((node, next, is_entry)) = stack.pop() {
+        let es = edges(node, is_entry);
+        if next == 0 && !is_entry {
+            color.insert(node, 1);
+            path.push(node);
+            exp.reachable.insert(r.files[node].0.clone());
+            match r.shapes[node].as_str() {
+                "lua:one" | "data" => {}
+                "parse-error" if r.data_lua.contains_key(&r.files[node].0) => exp.unnamed_data.push(r.files[node].0.clone()),
+                _ => exp.must_name.push(r.files[node].0.clone()),
+            }
+            if r.sites[node].iter().any(|s| s.shadowed) {
+                exp.module_shadow = true;
+            }
+        }
+        if next < es.len() {
+            stack.push((node, next + 1, is_entry));
+            let s = es[next];
+            if let Some(q) = s.target.strip_prefix("notfound:") {
+                if !exp.must_name.iter().any(|x| x == q) {
+                    exp.must_name.push(q.to_owned());
+                }
+            } else if let Some(p) = s.target.strip_prefix("file:") {
+                if let Some(&j) = index.get(p) {
+                    match color.get(&j) {
+                        None => stack.push((j, 0, false)),
+                        Some(1) => {
+                            exp.cyclic = true;
+                            let from = path.iter().position(|&x| x == j).unwrap_or(0);
+                            for &x in &path[from..] {
+                                exp.on_cycle.insert(r.files[x].0.clone());
+                            }
+                        }
+                        _ => {}
+                    }
+                }
+            }
+        } else if !is_entry {
+            color.insert(node, 2);
+            path.pop();
+        }
+    }
+    // nodes on a cycle: x reaches x (independent of the traversal order above)
+    exp.on_cycle.clear();
+    let nodes: Vec<usize> = color.keys().cloned().collect();
+    let succ = |i: usize| -> Vec<usize> {
+        edges(i, false).iter().filter_map(|s| s.target.strip_prefix("file:").and_then(|p| index.get(p).cloned())).collect()
+    };
+    for &x in &nodes {
+        let mut seen: BTreeSet<usize> = BTreeSet::new();
+        let mut todo = succ(x);
+        while let Some(y) = todo.pop() {
+            if seen.insert(y) {
+                todo.extend(succ(y));
+            }
+        }
+        if seen.contains(&x) {
+            exp.on_cycle.insert(r.files[x].0.clone());
+        }
+    }
+    exp
+}
+
+// ------------------------------------------------------------------ execution
+
+fn extern_list() -> String {
+    let mut names: Vec<String> = progen::EXTERNS.iter().map(|n| hex(n.as_bytes())).collect();
+    names.push(hex(b"require"));
+    format!("({})", names.join(" "))
+}
+
+pub fn run_text(model: &mut Model, code: &str) -> Result<String, String> {
+    let block = exec::parse(code)?;
+    Ok(model.ask(&format!("sem.run {} {} {}", LEVEL, extern_list(), astsexp::block_to_sexp(&block))))
+}
+
+pub fn rendered_json(r: &Rendered) -> Value {
+    json!({
+        "mode": r.mode, "entry": r.entry, "excludes": r.excludes, "modules_identifier": r.modules_identifier,
+        "files": r.files.iter().map(|(p, c)| json!([p, c])).collect::<Vec<_>>(),
+        "shapes": r.shapes,
+        "sites": r.sites.iter().map(|ss| ss.iter().map(|s| json!({"literal": s.literal, "string_form": s.string_form, "shadowed": s.shadowed, "target": s.target})).collect::<Vec<_>>()).collect::<Vec<_>>(),
+        "reference": r.reference,
+        "data_lua": r.data_lua,
+    })
+}
+
+pub fn rendered_from_json(v: &Value) -> Option<Rendered> {
+    let mut r = Rendered::default();
+    r.mode = v["mode"].as_str()?.to_owned();
+    r.entry = v["entry"].as_str()?.to_owned();
+    r.excludes = v["excludes"].as_array()?.iter().filter_map(|x| x.as_str().map(|s| s.to_owned())).collect();
+    r.modules_identifier = v["modules_identifier"].as_str().map(|s| s.to_owned());
+    for f in v["files"].as_array()? {
+        r.files.push((f[0].as_str()?.to_owned(), f[1].as_str()?.to_owned()));
+    }
+    r.shapes = v["shapes"].as_array()?.iter().filter_map(|x| x.as_str().map(|s| s.to_owned())).collect();
+    for ss in v["sites"].as_array()? {
+        let mut list = Vec::new();
+        for s in ss.as_array()? {
+            list.push(SiteInfo {
+                literal: s["literal"].as_str()?.to_owned(),
+                string_form: s["string_form"].as_bool()?,
+                shadowed: s["shadowed"].as_bool()?,
+                target: s["target"].as_str()?.to_owned(),
+            });
+        }
+        r.sites.push(list);
+    }
+    r.reference = v["reference"].as_str().map(|s| s.to_owned());
+    if let Some(map) = v["data_lua"].as_object() {
+        for (k, val) in map {
+            r.data_lua.insert(k.clone(), val.as_str()?.to_owned());
+        }
+    }
+    Some(r)
+}
+
+include!("c05_check.rs");
